@@ -404,7 +404,7 @@ func main() {
 			"states": states, "transitions": trans, "traces_validated_against_impl": trans,
 			"evaluations": trans + vst.ChecksWindows + vst.ChecksLinux + sst.Checked + pst.Calls + hst.Checks, "distinct_nontrivial": len(outcomes),
 			"outcome_classes": outcomes,
-			"rule": "(C) every history of length <= bound over the portable call alphabet (namespace calls, the helpers of package avfs that answer by the class of a failure - Exists, DirExists, IsDir, IsEmpty - on every operand of the one-path calls, Glob and WalkDir with the wildcard / the root at every depth from the volume root down; every path-taking call, Chdir included, also with its operands in each other spelling of the Windows type: forward slashes, volume left out, both - on the Windows-typed side only; names that differ from a name of the alphabet by the letter case of one element as entries of their own and as the two operands of Rename and Link; systems +sys: also the calls on the default locations $TMP, $HOME, $HOMEUSER and CreateTemp/MkdirTemp with dir \"\", system @D+sys: the same with the current directory of the Windows-typed side on an added volume, the system area staying on C:) executed in lock-step on a fresh Linux-typed and a fresh Windows-typed real instance, oracle on every transition (same success/failure, values of read-only calls, trees, current directory; of a call failing on both: error family and portable error class, also judged in (A) and (D)); " +
+			"rule": "(C) every history of length <= bound over the portable call alphabet (namespace calls, the helpers of package avfs that answer by the class of a failure - Exists, DirExists, IsDir, IsEmpty - on every operand of the one-path calls, Glob and WalkDir with the wildcard / the root at every depth from the volume root down; every path-taking call, Chdir included, also with its operands in each other spelling of the Windows type: forward slashes, volume left out, both - on the Windows-typed side only; names that differ from a name of the alphabet by the letter case of one element as entries of their own and as the two operands of Rename and Link; systems +sys: also the calls on the default locations $TMP, $HOME, $HOMEUSER and CreateTemp/MkdirTemp with dir \"\", system @D+sys: the same with the current directory of the Windows-typed side on an added volume, the system area staying on C:) executed in lock-step on a fresh Linux-typed and a fresh Windows-typed real instance, oracle on every transition (same success/failure, values of read-only calls, trees, current directory; of a call failing on both: error family and portable error class, also judged in (A) and (D); of a call failing with ENOENT on the Linux type and one of the two not-found values on the Windows type: WHICH of the two, by the class of the responsible operand in the tree before the call - see assumptions); " +
 				"(D) every operand of <= bound elements over the element alphabet, absolute and relative, given to Glob (all), WalkDir and ReadDir (operands without wildcard) on both instances holding the same fixed tree, from each current directory, results compared in portable spelling; " +
 				"(B) every sequence of length <= bound over the volume alphabet executed on a fresh real MemFS of each OS type against the set model; " +
 				"(A) fixed list of facts and failing calls; the default configurations (constructor's system directories x default / same-type identity manager): each default location is an existing directory on both types or on neither, CreateTemp/MkdirTemp with dir \"\" agree; " +
@@ -428,6 +428,7 @@ func main() {
 			"permission bits and owners are never compared; Chown, Lchown, Chmod are not in the alphabet (documented as OS-specific); mtimes are not compared (not named by the property)",
 			"portable error class of a failing call = the subset of {fs.ErrNotExist, fs.ErrExist, fs.ErrPermission} the returned error satisfies under errors.Is (avfs.IsNotExist / avfs.IsExist have to say the same). Judged (kind error-class) in (A), (C), (D): per side the value is in the class its errno is in on the OS it stands for (Linux type: syscall.Errno of this Linux host; Windows type: the table of syscall.Errno.Is of GOOS=windows - 2, 3, 53 not-exist; 5 permission; 80, 145, 183 exist); pairwise a failure in a class on the Linux type is in the same class on the Windows type unless an OSType()==OsWindows branch of the call itself states another value (errmap.go callCompat). Not demanded: the converse (ENOTDIR and EBADF have no class, their counterparts in Errors.SetOSType, ErrWinPathNotFound and ErrWinAccessDenied, have one, as on Windows itself) - where a helper turns that into success on one type only it is reported as kind outcome (KF-C17-005)",
 			"class-branching helpers in (C): avfs.Exists, DirExists, IsDir, IsEmpty (explicit list, vfs_aferoutils.go) with every operand and spelling of the one-path calls, among them names whose last element is missing, names whose parent is missing and names below a file; their boolean is compared, except IsEmpty of the root in the default configuration (the system area has no counterpart); a helper's own error (IsEmpty: fmt.Errorf) counts as an OS-independent value",
+			"which of the two not-found values (kind error-value, part (C), errmap.go notFoundWant): ENOENT has two counterparts on the Windows type, both Windows values and both in the class fs.ErrNotExist; Windows answers ERROR_PATH_NOT_FOUND (3) when a directory on the way to the name is missing and ERROR_FILE_NOT_FOUND (2) when only the last element is. Judged for every call that fails with ENOENT on the Linux type and with 2 or 3 on the Windows type when the responsible operand has the class missing (owed: 2) or missing(parent missing) (owed: 3) in the Linux-typed tree before the call - one-path calls: the operand (Symlink: the new name; MkdirTemp: the directory, like the Stat it reports, as os.MkdirTemp; CreateTemp: the directory is on the way to the entry to create, owed 3 in both classes); Rename and Link: the old name when it is missing (it is looked up first), else - the old name existing as a plain file or directory - a new name whose directory is missing; both operands are enumerated independently, so exactly one of the two directories existing is reached. Not judged: operands below a file or a link, default locations, patterns, and instances whose own Lstat of that directory (Windows-typed side, after the call, which changed nothing) contradicts the class (entries no listing shows). The deviations of the unchanged tree (a Windows-typed OrefaFS answers 2 although the directory is missing in Chdir, Chtimes, Remove, Truncate, Rename for either name, Link for the new name; MemFS answers 3) are the known findings KF-C17-006/007",
 			"correspondence of error NUMBERS = avfs.Errors.SetOSType table plus the explicit OSType()==OsWindows branches of single calls (errmap.go) is informational (VERIF_C17_ERRCLASS=1 reports a mismatch under kind error-class too)",
 			"CustomError values and io/fs sentinels (fs.ErrClosed, fs.ErrExist ...) are accepted on both OS types as OS-independent values",
 			"the same PANIC/DEADLOCK on both OS types is not a C17 difference (owned by C07); one on a single side is",
